@@ -320,7 +320,95 @@ fn wedge_class(input: &[u8]) -> &'static str {
     }
 }
 
+/// Run a lane in child processes (one shard each). Hostile input may abort the whole process
+/// (allocation failure, stack overflow) where no catch_unwind helps; a child killed by a signal
+/// is itself the violation, and the other shards' reports are still collected.
+fn sharded(ctx: &Ctx, lane: &str) -> Report {
+    let exe = std::env::current_exe().expect("exe");
+    let shards = ctx.threads.clamp(1, 16) as u64;
+    let dir = std::env::temp_dir();
+    let mut kids = vec![];
+    for s in 0..shards {
+        let out = dir.join(format!("vh-c11-{}-{}-{}.json", std::process::id(), lane, s));
+        let _ = std::fs::remove_file(&out);
+        let child = std::process::Command::new(&exe)
+            .args(["--child", "c11-shard", lane, if ctx.quick() { "quick" } else { "thorough" }, &ctx.seed.to_string(), &s.to_string(), &shards.to_string(), out.to_str().unwrap(), &ctx.scale.to_string()])
+            .stdout(std::process::Stdio::null())
+            .stderr(std::process::Stdio::piped())
+            .spawn();
+        kids.push((s, out, child));
+    }
+    let mut rep = Report::new();
+    for (s, out, child) in kids {
+        let outp = match child {
+            Ok(c) => c.wait_with_output(),
+            Err(e) => {
+                rep.inconclusive(format!("cannot spawn shard {}: {}", s, e));
+                continue;
+            }
+        };
+        use std::os::unix::process::ExitStatusExt;
+        match outp {
+            Ok(o) => {
+                if let Some(sig) = o.status.signal() {
+                    let err = String::from_utf8_lossy(&o.stderr);
+                    let last: String = err.lines().rev().take(3).collect::<Vec<_>>().join(" | ").chars().take(300).collect();
+                    rep.violation(
+                        format!("C11:process-killed-by-signal-{}-while-handling-hostile-input:{}", sig, lane),
+                        format!("lane {} shard {}/{} (seed {}): the process died with signal {} ({}); no catch_unwind can intercept this", lane, s, shards, ctx.seed, sig, last),
+                        json!({"lane":lane,"shard":s,"shards":shards}),
+                    );
+                } else if let Ok(text) = std::fs::read_to_string(&out) {
+                    if let Ok(v) = serde_json::from_str::<Value>(&text) {
+                        rep.merge(Report::from_json(&v));
+                    } else {
+                        rep.harness_error(format!("shard {} wrote an unreadable report", s));
+                    }
+                } else {
+                    rep.harness_error(format!("shard {} exited with {:?} without a report", s, o.status.code()));
+                }
+            }
+            Err(e) => rep.inconclusive(format!("shard {}: {}", s, e)),
+        }
+        let _ = std::fs::remove_file(&out);
+    }
+    rep
+}
+
+pub fn shard_child(args: &[String]) -> i32 {
+    // lane tier seed shard nshards out scale
+    if args.len() < 7 {
+        return 2;
+    }
+    crate::report::install_panic_hook();
+    let ctx = Ctx {
+        tier: if args[1] == "thorough" { crate::report::Tier::Thorough } else { crate::report::Tier::Quick },
+        seed: args[2].parse().unwrap_or(1),
+        threads: 1,
+        start: std::time::Instant::now(),
+        scale: args[6].parse().unwrap_or(1.0),
+        tiny: false,
+        shard: Some((args[3].parse().unwrap_or(0), args[4].parse().unwrap_or(1))),
+    };
+    let rep = match args[0].as_str() {
+        "decoder" => decoder_inner(&ctx),
+        _ => driver_inner(&ctx),
+    };
+    let j = rep.to_json(&args[0]);
+    if std::fs::write(&args[5], serde_json::to_string(&j).unwrap_or_default()).is_err() {
+        return 3;
+    }
+    0
+}
+
 pub fn decoder(ctx: &Ctx) -> Report {
+    if ctx.tiny {
+        return decoder_inner(ctx);
+    }
+    sharded(ctx, "decoder")
+}
+
+fn decoder_inner(ctx: &Ctx) -> Report {
     let n = ctx.n(4_000_000, 2_000_000_000);
     par_cases(ctx, "decoder", n, ctx.secs(30, 900), |i, rng, rep| {
         let (input, label) = hostile_input(rng, 1 + rng.clone().below(1000) as i64);
@@ -498,6 +586,13 @@ fn run_driver_case(i: u64, rng: &mut Rng, rep: &mut Report, forced: Option<Vec<u
 }
 
 pub fn driver(ctx: &Ctx) -> Report {
+    if ctx.tiny {
+        return driver_inner(ctx);
+    }
+    sharded(ctx, "driver")
+}
+
+fn driver_inner(ctx: &Ctx) -> Report {
     let n = ctx.n(300_000, 200_000_000);
     par_cases(ctx, "driver", n, ctx.secs(40, 900), |i, rng, rep| run_driver_case(i, rng, rep, None, false))
 }
